@@ -240,6 +240,23 @@ func (g *gen) opSubscribe() {
 			"wamp.subscription.on_delete", "wamp.registration.on_create", "wamp.registration.on_register",
 			"wamp.registration.on_unregister", "wamp.registration.on_delete", "wamp.session.on_join", "wamp.session.on_leave"}), ""
 	}
+	if (g.profile == "meta" && g.chance(0.25)) || (g.profile != "meta" && g.chance(0.03)) {
+		// pattern subscriptions over the meta topics: one meta event then goes
+		// through several subscriptions (exact + prefix + wildcard)
+		switch g.r.IntN(5) {
+		case 0:
+			uri, m = "wamp.subscription.", "prefix"
+		case 1:
+			uri, m = "wamp.registration.", "prefix"
+		case 2:
+			uri, m = "wamp.", "prefix"
+		case 3:
+			uri, m = "wamp.session.", "prefix"
+		default:
+			uri, m = g.pick([]string{"wamp..on_subscribe", "wamp..on_create", "wamp.subscription.", "wamp..on_delete", "wamp..on_unregister"}), "wildcard"
+		}
+		g.tag("meta-topic-pattern-subscription")
+	}
 	req := g.nextReq(s)
 	g.subs = append(g.subs, subRec{s, req})
 	g.msg(s, &Msg{Kind: "sub", Req: req, Opts: g.kinded(matchOpts(m)), URI: uri})
@@ -1110,8 +1127,11 @@ func Generate(profile string, seed uint64, idx int, maxOps, maxSess int) *Scenar
 	for i := 0; i < realms; i++ {
 		g.sc.Realms = append(g.sc.Realms, cfg)
 	}
-	if realms > 1 && g.chance(0.35) {
+	if (realms > 1 && g.chance(0.35)) || (realms == 1 && g.chance(0.12)) {
 		g.sc.Template = true
+		if realms > 1 {
+			g.sc.TplFrom = g.r.IntN(2)
+		}
 		g.tag("realm-template")
 	}
 	// the property's own observation point: a catch-all observer in each realm
